@@ -26,6 +26,9 @@ type C20Case struct {
 	WS   *gen.Workspace `json:"ws"`
 	Root bool           `json:"root"`
 	From int            `json:"from"`
+	// AlsoOpen: other files opened in the editor (with the text they have on disk) before the hovers
+	// are asked: what is shown for them must not change what is counted
+	AlsoOpen []int `json:"also_open,omitempty"`
 }
 
 type acctAgg struct {
@@ -195,6 +198,17 @@ func c20Check(c *C20Case) (ds []ev.Discrepancy, stats map[string]int) {
 		return []ev.Discrepancy{ev.D("c20.harness", "%v", err)}, stats
 	}
 	defer func() { _ = h.Close(uri) }()
+	for _, fi := range c.AlsoOpen {
+		if fi == c.From || fi < 0 || fi >= len(env.URIs) {
+			continue
+		}
+		if _, err := h.OpenAndWait(env.URIs[fi], env.Disk[fi].Text); err != nil {
+			return []ev.Discrepancy{ev.D("c20.harness", "%v", err)}, stats
+		}
+		u := env.URIs[fi]
+		defer func() { _ = h.Close(u) }()
+		stats["other_files_open"]++
+	}
 	scope := env.scopeOf(c.From, c.Root)
 	var js []*m.Journal
 	for _, fi := range scope {
@@ -411,9 +425,16 @@ func TestC20(t *testing.T) {
 		} else {
 			c.From = rapid.IntRange(0, len(ws.Files)-1).Draw(t, "from")
 		}
+		if len(ws.Files) > 1 && rapid.Bool().Draw(t, "alsoopen") {
+			for fi := range ws.Files {
+				if fi != c.From && rapid.Bool().Draw(t, "openit") {
+					c.AlsoOpen = append(c.AlsoOpen, fi)
+				}
+			}
+		}
 		ds, st := c20Check(c)
 		nt := st["nontrivial_account_hovers"] > 0
-		cls := []string{fmt.Sprintf("root:%v", c.Root), fmt.Sprintf("from-root-file:%v", c.From == 0), fmt.Sprintf("files:%d", len(ws.Files))}
+		cls := []string{fmt.Sprintf("root:%v", c.Root), fmt.Sprintf("from-root-file:%v", c.From == 0), fmt.Sprintf("files:%d", len(ws.Files)), fmt.Sprintf("other-files-open:%v", len(c.AlsoOpen) > 0)}
 		recC20.Case(nt, mustJSON(c), cls...)
 		for k, v := range st {
 			recC20.Count(k, int64(v))
